@@ -75,6 +75,9 @@ func c14Module(i int, imports []int, rng *rand.Rand, errLine string) string {
 
 func genC14Project(rng *rand.Rand, idx int, kind string) c14Project {
 	n := 3 + rng.IntN(6) // 3..8 modules besides main
+	if kind == "parse-errors" {
+		n += 10 // many modules reporting at the same time
+	}
 	p := c14Project{id: fmt.Sprintf("gen:%d", idx), kind: kind, files: map[string]string{}, nmod: n + 1}
 	errLines := []string{"let bad: i32 = undefinedName;", "let bad: str = 5;", "let bad: i32 = \"s\";", "missingFn(1);", "let bad: i8 = 300;"}
 	nerr := 0
@@ -109,10 +112,13 @@ func genC14Project(rng *rand.Rand, idx int, kind string) c14Project {
 		if kind == "parse-error-chain" && i == 0 {
 			src = strings.Replace(src, fmt.Sprintf("fn Name%d() -> str {", i), fmt.Sprintf("fn Name%d() -> str {\n    let broken%d: i32 = ;", i, i), 1)
 		}
-		if kind == "parse-errors" && (i%2 == 0 || i == n-1) {
+		if kind == "parse-errors" && (i%4 != 1 || i == n-1) {
 			// the same syntax error on the same line of several concurrently parsed modules
 			src = strings.Replace(src, fmt.Sprintf("fn Name%d() -> str {", i), fmt.Sprintf("fn Name%d() -> str {\n    let broken%d: i32 = ;", i, i), 1)
 			src = fmt.Sprintf("const zz%d: i32 = 5\n", i) + src
+			// and blocks left open at the end of the file: the parser reports the same diagnostic at
+			// the same place once per open block
+			src += fmt.Sprintf("\nfn tail%d() {\n    if true {\n        while true {\n            {\n                {\n                    {\n                        if true {\n                            {\n                                {\n", i)
 		}
 		if kind == "cycle" && i == n-1 {
 			src = fmt.Sprintf("import \"{{PROJ}}/m%d\" as back;\n", backTo) + src
@@ -125,7 +131,7 @@ func genC14Project(rng *rand.Rand, idx int, kind string) c14Project {
 	sb.WriteString("import \"std/io\";\n")
 	fromMain := make([]bool, n)
 	for i := 0; i < n; i++ {
-		fromMain[i] = !hasImporter[i] || rng.IntN(4) == 0
+		fromMain[i] = !hasImporter[i] || rng.IntN(4) == 0 || kind == "parse-errors" // parse-error projects are flat: all modules report at the same time
 		if fromMain[i] {
 			fmt.Fprintf(&sb, "import \"{{PROJ}}/m%d\" as m%d;\n", i, i)
 		}
@@ -164,7 +170,7 @@ type c14Obs struct {
 
 func checkC14(c *Ctx) error {
 	r := c.R
-	r.Rule = "generated projects of 4-9 modules (main imports only the modules nobody else imports plus a few more, so most modules are reachable only through chains and some through exactly one importer; function literals in every module, anonymous struct types, interfaces with two implementers per module, enums, strings; closures capturing 2-5 locals; one third with type errors in several files, one sixth with the same syntax errors on the same lines of several modules, one sixth a leaf with a syntax error next to a chain of modules with exactly one importer each (the last one with a type error), one sixth with an import cycle) compiled repeatedly in the same directory: ferret-verif with distinct (GOMAXPROCS in {1,2,4,16}, VERIF_SCHED seed) for native (-keep-gen) and wasm, ferret-race (race detector) and the plain ferret; all observations (exit status, stderr bytes, each gen/*.ssa, .wasm bytes) must be identical; non-trivial = a distinct project for which >=2 distinct parse orders were actually observed in the event log and all runs agreed"
+	r.Rule = "generated projects of 4-9 modules (main imports only the modules nobody else imports plus a few more, so most modules are reachable only through chains and some through exactly one importer; function literals in every module, anonymous struct types, interfaces with two implementers per module, enums, strings; closures capturing 2-5 locals; one third with type errors in several files, one sixth with the same syntax errors on the same lines of several modules (missing operands and semicolons, and several blocks left open at the end of the file, i.e. one diagnostic repeated at one place), one sixth a leaf with a syntax error next to a chain of modules with exactly one importer each (the last one with a type error), one sixth with an import cycle) compiled repeatedly in the same directory: ferret-verif with distinct (GOMAXPROCS in {1,2,4,16}, VERIF_SCHED seed) for native (-keep-gen) and wasm, ferret-race (race detector) and the plain ferret (failing projects: 12 / 30 further runs of the plain binary under GOMAXPROCS 16/8/4); all observations (exit status, stderr bytes, each gen/*.ssa, .wasm bytes) must be identical; non-trivial = a distinct project for which >=2 distinct parse orders were actually observed in the event log and all runs agreed"
 	r.Assumptions = []string{"the hooks only yield/sleep between critical sections of parseModule and log events; they never change data", "runs of one project share the directory, so absolute paths in diagnostics are identical by construction"}
 	nProj := c.N(6, 90)
 	nSched := c.N(4, 14)
@@ -269,6 +275,14 @@ func checkC14(c *Ctx) error {
 			add(t, observe(fmt.Sprintf("verif gomaxprocs=%s sched=%s", g, seed), verif, t, env))
 		}
 		add(core.Wasm, observe("plain-wasm", plain, core.Wasm, nil))
+		// projects that fail stop before code generation, so many more runs of them are cheap: the
+		// plain binary under its natural scheduling (the hook's delays tend to serialise the parsers)
+		if proj.kind != "ok" {
+			for k := 0; k < c.N(12, 30); k++ {
+				g := []string{"16", "8", "4"}[k%3]
+				add(core.Native, observe(fmt.Sprintf("plain gomaxprocs=%s #%d", g, k), plain, core.Native, []string{"GOMAXPROCS=" + g}))
+			}
+		}
 		// race detector runs
 		raceReports := 0
 		for k := 0; k < nRace; k++ {
